@@ -1285,8 +1285,8 @@ func (m *prioMon) spawnScript(c Cfg, v1 *v1Ctl, inputs []chan Item) {
 		for step := 0; step < c.Script; step++ {
 			vrt.Mark(vrt.Mix(uint64(used), uint64(step)))
 			var avail []int
-			for op := 0; op < 5; op++ {
-				allowed := len(c.Ops) == 0
+			for op := 0; op < 6; op++ {
+				allowed := len(c.Ops) == 0 && op < 5
 				for _, a := range c.Ops {
 					if a == op {
 						allowed = true
@@ -1315,6 +1315,9 @@ func (m *prioMon) spawnScript(c Cfg, v1 *v1Ctl, inputs []chan Item) {
 				doRemove(lo)
 			case 4:
 				doAdd(inputs[0], m.origin[0], hi)
+			case 5:
+				// register the lowest priority's own channel once more (a no-op by meaning)
+				doAdd(inputs[np-1], m.origin[np-1], lo)
 			}
 		}
 		vrt.Mark(vrt.Mix(uint64(used), 0xd0e))
